@@ -83,6 +83,13 @@ fn walk<T: Reg>(t: &TableV, is_private: Option<fn(i64) -> bool>) -> (u64, u64, F
     for i in extremes {
         probe(i, &mut f);
     }
+    // what a truncating conversion would confuse with a registered value
+    for (_, z) in t.rows {
+        for k in [1i64 << 8, 1i64 << 16, 1i64 << 32, 1i64 << 48] {
+            probe(z.wrapping_add(k), &mut f);
+            probe(z.wrapping_sub(k), &mut f);
+        }
+    }
     if t.haspriv != is_private.is_some() {
         f.push(("private-range-support-differs".into(), json!({"registry_has_private": t.haspriv})));
     }
